@@ -34,7 +34,6 @@ def _fp(fn) -> str:
 # function -> {fingerprint: tag}.  Tags select the model variant; "base" is the only variant for most.
 KNOWN_SHAPES = {
     ("stepup/core/watcher.py", "AsyncInotifyWrapper", "change_loop"): {},
-    ("stepup/core/watcher.py", "AsyncInotifyWrapper", "dir_loop"): {},
     ("stepup/core/workflow.py", "Workflow", "change_is_relevant"): {},
     ("stepup/core/workflow.py", "Workflow", "relevant_paths_under"): {},
     ("stepup/core/workflow.py", "Workflow", "get_file_hashes"): {},
@@ -58,7 +57,7 @@ FINGERPRINTS = {
     # model equal to them through C17's tie files.
     # second shape: the ISDIR branch also queues the directory itself (proposed fix for C14-D10)
     "stepup/core/watcher.py:AsyncInotifyWrapper.change_loop": ("1db8fefdf05cafae", "e1d6cde9fd574e23", "db0649bb364119ee"),  # first: with log-only statements dropped (astutil._DropLogging)
-    "stepup/core/watcher.py:AsyncInotifyWrapper.dir_loop": ("71299503f029cf32",),
+    # AsyncInotifyWrapper.dir_loop is not fingerprinted: translated statement by statement (_dir_loop_program)
     "stepup/core/workflow.py:Workflow.change_is_relevant": ("7296039b3c9fd378",),
     "stepup/core/workflow.py:Workflow.relevant_paths_under": ("5b3d4e5ed6bc08c7",),
     "stepup/core/workflow.py:Workflow.get_file_hashes": ("52974d48de67df62",),
@@ -297,6 +296,54 @@ def _run_once_program(tree):
             "drain_during_build": drain_flag, "loop_during_build": loop_flag}
 
 
+_INSTALL_UP = ("while path.name != '..':\n    if path == '':\n        path = Path('.')\n    if self.watches.get(path) is not None:\n"
+               "        break\n    self._install_watch(path)\n    if path == '.':\n        break\n    path = path.parent")
+_CLIMB_TEST = "not (path.is_dir() or path.name == '..' or path in ('', '.'))"
+
+
+def _dir_loop_program(tree):
+    """Statement-level translation of AsyncInotifyWrapper.dir_loop (the body of its `async for`) into the
+    vocabulary of model/WatchSet.v exec_dstmt: which directories are recorded as pending watches while climbing
+    from a requested, missing directory to its nearest existing ancestor (DClimb record), whether the requested
+    directory itself is recorded afterwards (DPendRequested), and the upward installation of watches
+    (DInstallUp).  Fail closed on anything else."""
+    fn = find_function(tree, "dir_loop", "AsyncInotifyWrapper")
+    body = body_without_docstring(fn)
+    if not (len(body) == 1 and isinstance(body[0], ast.AsyncFor) and ast.unparse(body[0].target) == "path"
+            and ast.unparse(body[0].iter) == "iter_until_stopped(self.dir_queue.get, self.stop_event)" and not body[0].orelse):
+        raise TranslatorError("dir_loop: outer loop not recognised")
+    stmts = body[0].body
+    if not stmts or ast.unparse(stmts[0]) != "path = Path(path).normpath()":
+        raise TranslatorError("dir_loop: normalisation of the requested path not recognised")
+    prog, saved = [], None
+    for st in stmts[1:]:
+        src = ast.unparse(st)
+        m = re.fullmatch(r"([a-z_]+) = path", src)
+        if m and saved is None and not prog:
+            saved = m.group(1)          # the requested directory is remembered under this name
+            continue
+        if isinstance(st, ast.While) and ast.unparse(st.test) == _CLIMB_TEST and not st.orelse:
+            inner = [ast.unparse(x) for x in st.body]
+            if inner == ["self.watches.setdefault(path, None)", "path = path.parent"]:
+                prog.append("DClimb true")
+            elif inner == ["path = path.parent"]:
+                prog.append("DClimb false")
+            else:
+                raise TranslatorError(f"dir_loop: body of the climbing loop not recognised: {inner!r}")
+            continue
+        if saved is not None and src == f"if path != {saved}:\n    self.watches.setdefault({saved}, None)":
+            prog.append("DPendRequested")
+            continue
+        if src == _INSTALL_UP:
+            prog.append("DInstallUp")
+            continue
+        raise TranslatorError(f"dir_loop: statement not recognised: {src}")
+    if [x.split()[0] for x in prog].count("DClimb") != 1 or prog[-1] != "DInstallUp" or prog.count("DInstallUp") != 1 \
+            or prog[0].split()[0] != "DClimb":
+        raise TranslatorError(f"dir_loop: order of the statements not recognised: {prog}")
+    return {"dir_loop_program": prog}
+
+
 def _rescan_files_facts(tree):
     fn = find_function(tree, "rescan_files")
     src = ast.unparse(fn)
@@ -372,6 +419,7 @@ def generate(check_fingerprints=True):
     w_tree = parse_module("stepup/core/watcher.py")
     facts.update(_change_loop_facts(w_tree))
     facts.update(_run_once_program(w_tree))
+    facts.update(_dir_loop_program(w_tree))
     facts.update(_rescan_files_facts(parse_module("stepup/core/startup.py")))
     facts.update(_hash_job_facts(parse_module("stepup/core/executor.py")))
     if check_fingerprints:
@@ -490,6 +538,10 @@ def generate(check_fingerprints=True):
         f"Definition drain_during_build : bool := {'true' if facts['drain_during_build'] else 'false'}.",
         f"Definition loop_during_build : bool := {'true' if facts['loop_during_build'] else 'false'}.",
         f"Definition commit_program : list cstmt := [{'; '.join(facts['commit_program'])}].",
+        "",
+        "(* AsyncInotifyWrapper.dir_loop translated statement by statement (_dir_loop_program; model/WatchSet.v exec_dstmt) *)",
+        "Inductive dstmt : Set := DClimb (record : bool) | DPendRequested | DInstallUp.",
+        f"Definition dir_loop_program : list dstmt := [{'; '.join(facts['dir_loop_program'])}].",
         "",
     ]
     return "\n".join(out), facts
